@@ -1,5 +1,7 @@
 import XmppModel.Prelude.Hex
 import XmppModel.Model.Correlate
+import XmppModel.Driver.C15
+import XmppModel.Driver.C18
 /-! Driver module for C06: replays an observed trace of a forced schedule on the LTS of
 `Model/Correlate.lean`.  The answer is the model's final summary if every trace event is
 enabled in the model (trace inclusion), `bad@n:tok` otherwise.
@@ -8,7 +10,8 @@ enabled in the model (trace inclusion), `bad@n:tok` otherwise.
       c<i> call   o<i> transmit ok   f<i> transmit failed (call returned)   x<i> cancel
       s<i> requester enters its select    R<i>r<k> returned the response made from stanza k
       R<i>c returned the context error    k<i> caller closes the response
-      p<kind><id><r|e|n> peer stanza (n: not a result/error)   H<k> handler got stanza k
+      p<kind><id><r|e|n|g|t>[S] peer stanza (r result, e error; n normal, g get, t set are never
+        looked up; S: explicit other stanza namespace)   H<k> handler got stanza k
       g serve loop enters the hand-off select   h serve loop starts waiting for the close
     C06 rcpt <ids> <trace>      ids `,`-joined, tokens: c o f x s as above, T<i> returned nil,
       R<i>c returned the context error, q<id> receipt for id looked up (and deleted),
@@ -22,18 +25,27 @@ def parseKind (c : Char) : Option Kind :=
 
 def nthD {α} (l : List α) (d : α) (i : Nat) : α := match l[i]? with | some x => x | none => d
 
-def parseReqs (s : String) : Option (List (Kind × Nat)) :=
+def parseNs (s : String) : Option Ns :=
+  if s = "e" then some .empty else if s = "c" then some .stream else if s = "s" then some .other else none
+
+/-- `kind:id[:ns[:api]]` — ns e (none) | c (the stream's) | s (the other stanza namespace);
+the api field (how the harness issued the call) is ignored by the model -/
+def parseReqs (s : String) : Option (List (Kind × Nat × Ns)) :=
   mapM? (fun (f : String) => match f.splitOn ":" with
-    | [k, id] => do
+    | k :: id :: rest => do
       let kc ← k.toList.head?
       let kk ← parseKind kc
       let n ← id.toNat?
-      pure (kk, n)
+      let ns ← match rest with
+        | [] => some Ns.empty
+        | x :: _ => parseNs x
+      pure (kk, n, ns)
     | _ => none) (splitList s)
 
-def mkCfg (reqs : List (Kind × Nat)) : Cfg :=
-  { ids := fun i => (nthD reqs (.iq, 1000 + i) i).2,
-    kinds := fun i => (nthD reqs (.iq, 1000 + i) i).1,
+def mkCfg (reqs : List (Kind × Nat × Ns)) : Cfg :=
+  { ids := fun i => (nthD reqs (.iq, 1000 + i, .empty) i).2.1,
+    kinds := fun i => (nthD reqs (.iq, 1000 + i, .empty) i).1,
+    spaces := fun i => (nthD reqs (.iq, 1000 + i, .empty) i).2.2,
     derived := true }
 
 def steps (cfg : Cfg) (s : St) (as : List Act) : Option St := run cfg s as
@@ -68,12 +80,15 @@ def applyTok (cfg : Cfg) (s : St) (tok : String) : Option St :=
         steps cfg s [.timeout i, .dereg i]
       else none
     | _ => none
-  | 'p' :: kc :: r => do
+  | 'p' :: kc :: r0 => do
     let kind ← parseKind kc
+    -- optional trailing S: the stanza carries the other stanza namespace explicitly
+    let (r, ns) := if r0.getLast? = some 'S' then (r0.dropLast, Ns.other) else (r0, Ns.stream)
     let t ← r.getLast?
     let id ← numOf r.dropLast
-    let resp ← if t = 'r' ∨ t = 'e' then some true else if t = 'n' then some false else none
-    step cfg (settle cfg s) (.read ⟨kind, id, resp⟩)
+    -- r result, e error: looked up;  n normal / g get / t set: never looked up
+    let resp ← if t = 'r' ∨ t = 'e' then some true else if t = 'n' ∨ t = 'g' ∨ t = 't' then some false else none
+    step cfg (settle cfg s) (.read ⟨kind, id, resp, ns⟩)
   | 'H' :: r => do
     let k ← numOf r
     if s.hlog.head? = some k then some s else none
@@ -104,6 +119,139 @@ def replayAll (cfg : Cfg) : List String → Nat → St → Except String St
   | t :: ts, n, s => match applyTok cfg s t with
     | some s' => replayAll cfg ts (n + 1) s'
     | none => .error s!"bad@{n}:{t}"
+
+
+/-! ### schedule generation from the LTS
+
+`C06 gen <reqs> <seed> <count> <len>` answers `count` forced schedules (`;`-joined), each the
+full trace the harness has to realise: harness actions (c o f x s p… g h k) interleaved with the
+events the model says must follow (R…, H…).  A schedule is a path through `step`: the
+generator keeps the model state plus the three facts the hooks add (which requesters have
+entered their select, whether the serve loop has entered its hand-off select, whether it is
+parked after a hand-off) and only offers actions that are enabled; events are appended as soon
+as the model determines them; a state in which a select could go either way ends the schedule
+(the harness' epilogue takes over).  `C06 genall <reqs> <depth> <max>` enumerates every such
+path up to `depth` actions (at most `max`). -/
+
+structure GState where
+  st : St
+  insel : List Nat := []      -- requesters released into their select
+  entered : Bool := false     -- serve loop released into its hand-off select
+  handed : Bool := false      -- serve loop parked after a hand-off (before it waits for the close)
+  trace : List String := []   -- reversed
+  stop : Bool := false
+
+def showKind : Kind → Char | .iq => 'i' | .message => 'm' | .presence => 'p'
+
+/-- events the model forces in the current state (requester returns) -/
+def autoEvents (cfg : Cfg) (n : Nat) (g : GState) : Nat → GState
+  | 0 => g
+  | fuel + 1 =>
+    let s := g.st
+    let cand := (List.range n).filter fun i => g.insel.contains i && s.rpc i == .waiting
+    let pick := cand.find? fun i =>
+      (match s.spc with | .offering j _ => j == i && g.entered | _ => false) || s.cancelled i
+    match pick with
+    | none => g
+    | some i =>
+      let canRecv := match s.spc with | .offering j _ => j == i && g.entered | _ => false
+      let canTime := s.cancelled i
+      if canRecv && canTime then { g with stop := true }
+      else if canRecv then
+        match s.spc with
+        | .offering _ k =>
+          match steps cfg s [.recv i, .dereg i] with
+          | some s' => autoEvents cfg n { g with st := s', insel := g.insel.erase i, entered := false, handed := true,
+                                                 trace := s!"R{i}r{k}" :: g.trace } fuel
+          | none => g
+        | _ => g
+      else
+        match steps cfg s [.timeout i, .dereg i] with
+        | some s' => autoEvents cfg n { g with st := s', insel := g.insel.erase i, trace := s!"R{i}c" :: g.trace } fuel
+        | none => g
+
+def busySending (n : Nat) (s : St) : Bool := (List.range n).any fun i => s.rpc i == .sending
+
+/-- peer stanzas worth sending for these requesters -/
+def peerAlphabet (reqs : List (Kind × Nat × Ns)) : List String :=
+  let per := reqs.flatMap fun (k, id, ns) =>
+    let kc := showKind k
+    let sfx := if ns == .other then "S" else ""
+    let other := if k == .iq then 'm' else 'i'
+    [s!"p{kc}{id}r{sfx}", s!"p{kc}{id}e{sfx}", s!"p{other}{id}e{sfx}", s!"p{kc}{id}{if k == .iq then "g" else "n"}",
+     s!"p{kc}{id}r{if ns == .other then "" else "S"}"]
+  (per ++ ["pi9r", "pm9e"]).eraseDups
+
+/-- enabled harness actions -/
+def enabled (cfg : Cfg) (reqs : List (Kind × Nat × Ns)) (g : GState) : List String :=
+  let n := reqs.length
+  let s := g.st
+  let perReq := (List.range n).flatMap fun i =>
+    (if s.rpc i == .fresh && !busySending n s then [s!"c{i}"] else []) ++
+    (if s.rpc i == .sending then [s!"o{i}", s!"f{i}"] else []) ++
+    (if !s.cancelled i && (s.rpc i == .sending || s.rpc i == .waiting) then [s!"x{i}"] else []) ++
+    (if s.rpc i == .waiting && !g.insel.contains i then [s!"s{i}"] else []) ++
+    (match s.rpc i with | .done (.reply _) false => [s!"k{i}"] | _ => [])
+  let serveFree := match s.spc with
+    | .idle => !g.handed
+    | .offering j _ => g.entered && ctxDone cfg s j
+    | _ => false
+  let peers := if serveFree then
+      (peerAlphabet reqs).filter fun t =>
+        -- an unhandled get is answered by the serve loop itself: it needs the output lock
+        !(t.endsWith "g" && busySending n s)
+    else []
+  let serve := (match s.spc with | .offering .. => if g.entered then [] else ["g"] | _ => []) ++
+    (if g.handed then ["h"] else [])
+  perReq ++ peers ++ serve
+
+def applyAction (cfg : Cfg) (n : Nat) (g : GState) (tok : String) : Option GState := do
+  let s' ← applyTok cfg g.st tok
+  let g1 : GState := { g with st := s', trace := tok :: g.trace }
+  let g2 : GState := match tok.toList with
+    | 's' :: r => match numOf r with | some i => { g1 with insel := i :: g1.insel } | none => g1
+    | ['g'] => { g1 with entered := true }
+    | ['h'] => { g1 with handed := false }
+    | 'p' :: _ =>
+      -- a miss is handled at once; a hit parks the serve loop after the lookup
+      let g' := { g1 with entered := false }
+      if s'.hlog.length > g.st.hlog.length then
+        match s'.hlog.head? with | some k => { g' with trace := s!"H{k}" :: g'.trace } | none => g'
+      else g'
+    | 'f' :: r => match numOf r with | some i => { g1 with insel := g1.insel.erase i } | none => g1
+    | _ => g1
+  pure (autoEvents cfg n g2 (2 * n + 2))
+
+def lcg (x : Nat) : Nat := (x * 6364136223846793005 + 1442695040888963407) % 18446744073709551616
+
+def randomWalk (cfg : Cfg) (reqs : List (Kind × Nat × Ns)) : Nat → Nat → GState → GState
+  | 0, _, g => g
+  | fuel + 1, seed, g =>
+    if g.stop then g else
+    let en := enabled cfg reqs g
+    if en.isEmpty then g else
+    let seed' := lcg seed
+    match en[(seed' / 65536) % en.length]? with
+    | some tok => match applyAction cfg reqs.length g tok with
+      | some g' => randomWalk cfg reqs fuel seed' g'
+      | none => g
+    | none => g
+
+def genRandom (cfg : Cfg) (reqs : List (Kind × Nat × Ns)) (seed count len : Nat) : List String :=
+  (List.range count).map fun k =>
+    let g := randomWalk cfg reqs len (lcg (seed * 1000003 + k)) { st := init }
+    joinList g.trace.reverse
+
+/-- all paths of at most `depth` actions (depth-first, at most `max`) -/
+def genAll (cfg : Cfg) (reqs : List (Kind × Nat × Ns)) : Nat → GState → List String → Nat → List String
+  | 0, g, acc, _ => joinList g.trace.reverse :: acc
+  | d + 1, g, acc, max =>
+    if acc.length ≥ max then acc else
+    let en := if g.stop then [] else enabled cfg reqs g
+    if en.isEmpty then joinList g.trace.reverse :: acc
+    else en.foldl (fun a tok => match applyAction cfg reqs.length g tok with
+      | some g' => genAll cfg reqs d g' a max
+      | none => a) acc
 
 /-! receipts -/
 open Receipts in
@@ -155,12 +303,22 @@ def handle (args : List String) : Option String :=
     match replayAll cfg (splitList trace) 0 init with
     | .ok s => pure (summary cfg rs.length s)
     | .error e => pure e
+  | ["gen", reqs, seed, count, len] => do
+    let rs ← parseReqs reqs
+    let sd ← seed.toNat?; let c ← count.toNat?; let l ← len.toNat?
+    pure (joinList (genRandom (mkCfg rs) rs sd c l) ";")
+  | ["genall", reqs, depth, max] => do
+    let rs ← parseReqs reqs
+    let d ← depth.toNat?; let m ← max.toNat?
+    pure (joinList (genAll (mkCfg rs) rs d { st := init } [] m).reverse ";")
   | ["rcpt", ids, trace] => do
     let l ← mapM? String.toNat? (splitList ids)
     let idf := fun i => nthD l (1000 + i) i
     match replayR idf (splitList trace) 0 Receipts.rinit with
     | .ok s => pure (summaryR l.length s)
     | .error e => pure e
-  | _ => none
+  -- the MUC and in-band bytestream instances reuse the models of C18 / C15
+  | "muc" :: _ => C18.handle args
+  | _ => C15.handle args
 
 end XmppModel.Driver.C06
